@@ -97,7 +97,7 @@ func (t *Tagger) largestTagSemver(repo *git.Repository, major uint64) (*semver.V
 	}
 	if err := iter.ForEach(func(ref *plumbing.Reference) error {
 		var versionString string
-		tag, err := repo.TagObject(ref.Hash())
+		_, err := repo.TagObject(ref.Hash())
 		switch err {
 		case nil:
 		case plumbing.ErrObjectNotFound:
@@ -118,7 +118,9 @@ func (t *Tagger) largestTagSemver(repo *git.Repository, major uint64) (*semver.V
 				return errors.New(err)
 			}
 		} else {
-			versionString = tag.Name
+			// An annotated tag is known by its ref name as well: the name recorded
+			// inside the tag object can differ (e.g. after `git tag v3.6.0 v3.5.0`).
+			versionString = ref.Name().Short()
 		}
 		versionParts := strings.Split(versionString, ".")
 		if len(versionParts) < 3 {
